@@ -95,13 +95,73 @@ fn waker_lifecycle() {
     kani::cover!(!wake1 && !wake2, "drop without a preceding wake");
     std::mem::forget(s);
 }
-// @verif prop=C12,C11,C18 tier=quick timeout=600 mem=24 unwind=10 unwindset=drop_glue::<\[.*Stakker\)>\]>\.0$:1,Leaf(::|5)drain.*\.0$:3
+// @verif prop=C12,C11,C18 tier=thorough timeout=600 mem=24 unwind=10 unwindset=drop_glue::<\[.*Stakker\)>\]>\.0$:1,Leaf(::|5)drain.*\.0$:3
 // @enc Stakker::{set_poll_waker,poll_wake,process_waker_drops} Core::waker WakeHandlers::{new,add,del,wake_list,drop_list,handler_borrow,handler_restore} Waker::{wake,drop} BitMap::{new,set,drain} Leaf::{set,drain}
 // @sym whether each of two wakers is woken before the first is dropped
 // @bound 3 wakers (the third reuses the first one's slot), 5 poll_wake calls, executed sequentially at operation granularity
 // @stub std::hash::RandomState::new -> fixed keys
 // @assume sequential execution (interleavings inside wake/poll_wake: C11 model); multi-stakker,no-unsafe-queue build; atomics through the vstd shim with real semantics
 sync_harness!(wk_lifecycle, waker_lifecycle());
+
+// smaller scripts (the full lifecycle above is the thorough tier)
+fn waker_wake_then_drop(wake1: bool) {
+    let mut s = new_stakker();
+    let w1 = s.waker(handler(1));
+    if wake1 {
+        w1.wake();
+        assert!(polls() == 1, "C11: wake must invoke the poll-waker callback");
+    }
+    drop(w1);
+    assert!(polls() >= 1, "C12: dropping a Waker must request a poll");
+    s.poll_wake();
+    assert!(h(1, true) == 1 && unsafe { LAST_DELETED[1] } && unsafe { AFTER_DELETED[1] } == 0, "C12: exactly one deleted=true call, and it is the last");
+    assert!(h(1, false) <= 1);
+    s.poll_wake();
+    assert!(h(1, true) == 1 && unsafe { AFTER_DELETED[1] } == 0, "C12: handler called again after deleted=true");
+    kani::cover!(true, "done");
+    std::mem::forget(s);
+}
+// @verif prop=C12,C11,C18 tier=quick timeout=900 mem=24 unwind=10 unwindset=drop_glue::<\[.*Stakker\)>\]>\.0$:1,Leaf(::|5)drain.*\.0$:3
+// @enc Stakker::{set_poll_waker,poll_wake,process_waker_drops} Core::waker WakeHandlers::{add,del,wake_list,drop_list,handler_borrow,handler_restore} Waker::{wake,drop} BitMap::{set,drain}
+// @sym none (control flow must stay concrete: symbolic wake flags make every bitmap index symbolic and the query does not finish)
+// @bound 1 waker: [wake]; drop; poll_wake; poll_wake
+// @stub std::hash::RandomState::new -> fixed keys
+// @assume sequential execution at operation granularity; multi-stakker,no-unsafe-queue build
+sync_harness!(wk_wake_then_drop, waker_wake_then_drop(true));
+// @verif prop=C12,C11,C18 tier=quick timeout=900 mem=24 unwind=10 unwindset=drop_glue::<\[.*Stakker\)>\]>\.0$:1,Leaf(::|5)drain.*\.0$:3
+// @enc Stakker::{set_poll_waker,poll_wake,process_waker_drops} Core::waker WakeHandlers::{add,del,wake_list,drop_list,handler_borrow,handler_restore} Waker::{wake,drop} BitMap::{set,drain}
+// @sym none (control flow must stay concrete: symbolic wake flags make every bitmap index symbolic and the query does not finish)
+// @bound 1 waker: drop (never woken); poll_wake; poll_wake
+// @stub std::hash::RandomState::new -> fixed keys
+// @assume sequential execution at operation granularity; multi-stakker,no-unsafe-queue build
+sync_harness!(wk_drop_unwoken, waker_wake_then_drop(false));
+
+fn waker_slot_reuse() {
+    let mut s = new_stakker();
+    let w1 = s.waker(handler(1));
+    let w2 = s.waker(handler(2));
+    drop(w1);
+    s.poll_wake();
+    assert!(h(1, true) == 1 && h(2, true) == 0 && h(2, false) == 0, "C12: dropping one Waker touched another's handler");
+    let w3 = s.waker(handler(3)); // reuses w1's slot
+    w3.wake();
+    s.poll_wake();
+    assert!(h(3, false) == 1 && h(3, true) == 0, "C12: a new Waker received the deleted=true call of the one whose slot it reuses / lost its wake");
+    assert!(h(1, true) == 1 && unsafe { AFTER_DELETED[1] } == 0);
+    drop(w2);
+    drop(w3);
+    s.poll_wake();
+    assert!(h(2, true) == 1 && h(3, true) == 1 && h(1, true) == 1, "C12: each dropped Waker reported exactly once");
+    kani::cover!(true, "done");
+    std::mem::forget(s);
+}
+// @verif prop=C12,C18 tier=quick timeout=900 mem=24 unwind=10 unwindset=drop_glue::<\[.*Stakker\)>\]>\.0$:1,Leaf(::|5)drain.*\.0$:3
+// @enc as wk_wake_then_drop, plus slab slot reuse in WakeHandlers::add
+// @sym none (fixed script)
+// @bound 3 wakers (the third reuses the first one's slot); 3 poll_wake calls
+// @stub std::hash::RandomState::new -> fixed keys
+// @assume sequential execution at operation granularity; multi-stakker,no-unsafe-queue build
+sync_harness!(wk_slot_reuse, waker_slot_reuse());
 
 // ---- C13: channel at critical-section granularity ----
 static mut FWD: [u32; 8] = [0; 8];
@@ -120,7 +180,7 @@ fn fwdn() -> usize {
 fn fwd(i: usize) -> u32 {
     unsafe { FWD[i] }
 }
-fn channel_open_close() {
+fn channel_open_close(collect_first: bool) {
     let mut s = new_stakker();
     unsafe { FWDN = 0 };
     let (ch, guard): (Channel<u32>, ChannelGuard) = Channel::new(&mut s, fwd_log());
@@ -137,7 +197,6 @@ fn channel_open_close() {
     assert!(fwdn() == 3, "C13: message forwarded twice");
     assert!(ch2.send(d));
     assert!(polls() == 2, "C13: a message accepted after a collection needs a new wake-up");
-    let collect_first: bool = kani::any();
     if collect_first {
         s.poll_wake();
         assert!(fwdn() == 4 && fwd(3) == d);
@@ -148,17 +207,23 @@ fn channel_open_close() {
     s.poll_wake();
     s.poll_wake();
     assert!(fwdn() == if collect_first { 4 } else { 3 }, "C13: nothing may be forwarded after the guard is dropped (pending messages are discarded)");
-    kani::cover!(collect_first, "collected before close");
-    kani::cover!(!collect_first, "closed with a message pending");
+    kani::cover!(true, "done");
     std::mem::forget(s);
 }
 // @verif prop=C13,C18 tier=quick timeout=600 mem=24 unwind=10 unwindset=drop_glue::<\[.*Stakker\)>\]>\.0$:1,Leaf(::|5)drain.*\.0$:3
 // @enc Channel::{new,send,is_closed,clone} ChannelGuard::drop Closable::close Core::waker Stakker::poll_wake Waker::{wake,drop} Fwd::{new,fwd}
-// @sym 4 message values; whether the last message is collected before the guard is dropped
+// @sym 4 message values (control flow concrete)
 // @bound 2 senders, 4 accepted messages, 5 poll_wake calls, guard dropped; one step = one critical section
 // @stub std::hash::RandomState::new -> fixed keys
 // @assume critical-section granularity (all channel state is under one mutex, wake() is called inside it); a change that touches shared state outside the lock would not be seen
-sync_harness!(ch_open_close, channel_open_close());
+sync_harness!(ch_open_close, channel_open_close(true));
+// @verif prop=C13,C18 tier=quick timeout=600 mem=24 unwind=10 unwindset=drop_glue::<\[.*Stakker\)>\]>\.0$:1,Leaf(::|5)drain.*\.0$:3
+// @enc Channel::{new,send,is_closed,clone} ChannelGuard::drop Closable::close Core::waker Stakker::poll_wake Waker::{wake,drop} Fwd::{new,fwd}
+// @sym 4 message values (control flow concrete)
+// @bound 2 senders, 4 accepted messages, 5 poll_wake calls, guard dropped with a message still queued; one step = one critical section
+// @stub std::hash::RandomState::new -> fixed keys
+// @assume critical-section granularity (all channel state is under one mutex, wake() is called inside it); a change that touches shared state outside the lock would not be seen
+sync_harness!(ch_close_pending, channel_open_close(false));
 
 // A send that lands while the handler is forwarding a batch (the lock is released during forwarding): the message
 // must not be lost and must have a wake-up pending.  The "other thread" is the Fwd callback itself.
